@@ -11,6 +11,8 @@ SVC_OV = [{"file": "services/basic_service.go", "rewrite": ['"sync"', '"go.uber.
           {"file": "services/manager.go", "rewrite": ['"sync"', '"go.uber.org/atomic"']},
           {"file": "services/failure_watcher.go", "rewrite": ['"sync"']}]
 
+TOK_OV = [{"file": "ring/tokens.go", "rewrite": ['"os"']}]
+
 CHECKS = {
     "C01": {"parts": [P("lookup", "./c01", "^TestC01$")]},
     "C02": {"parts": [P("quorum-intersection", "./c02", "^TestC02$")]},
@@ -24,6 +26,9 @@ CHECKS = {
                                {"file": "kv/etcd/mock.go", "rewrite": ['"sync"']},
                                {"file": "kv/memberlist/memberlist_client.go", "rewrite": ['"sync"', '"go.uber.org/atomic"']},
                                {"file": "kv/multi.go", "rewrite": ['"sync"', '"go.uber.org/atomic"']}])]},
+    "C08": {"parts": [P("lifecyclers", "./lifecycle", "^TestC08$", shards={"quick": 16, "thorough": 16}, budget={"quick": 200, "thorough": 1200}, gomaxprocs=1)]},
+    "C09": {"level": "fault_enumeration", "parts": [P("crash-and-faults", "./lifecycle", "^TestC09Crash$", budget={"quick": 240, "thorough": 1200}, gomaxprocs=1, overlay=TOK_OV),
+                      P("tokens-file", "./lifecycle", "^TestC09TokensFile$", overlay=TOK_OV)]},
     "C10": {"parts": [P("dobatch", "./c10", "^TestC10$", shards={"quick": 16, "thorough": 16}, budget={"quick": 200, "thorough": 1200}, gomaxprocs=1,
                       overlay=[{"file": "ring/batch.go", "rewrite": ['"sync"', '"go.uber.org/atomic"']}])]},
     "C17": {"parts": [P("single-service", "./c17", "^TestC17Single$", shards={"quick": 8, "thorough": 8}, budget={"quick": 200, "thorough": 1200}, gomaxprocs=1, overlay=SVC_OV),
